@@ -177,13 +177,41 @@ func checkC13(c *Ctx) {
 	r.Rule("C13.3", "ReloadSubnets: parse outside the lock, no call under the write lock, store only when the load succeeded", 3)
 	if f := c.fn("C13.3", "pkg/regserver/regprocessor", "RegProcessor", "ReloadSubnets"); f != nil {
 		checkNoCallsUnderWriteLock(r, "C13.3", f, func(p string) bool { return strings.HasSuffix(p, ".selectorMutex") }, nil)
-		stores := fieldStores(f, "regprocessor.RegProcessor", "ipSelector")
+		type selStore struct {
+			at  ssa.Instruction
+			val ssa.Value
+		}
+		var stores []selStore
+		for _, st := range fieldStores(f, "regprocessor.RegProcessor", "ipSelector") {
+			stores = append(stores, selStore{st, st.Val})
+		}
+		if len(stores) == 0 {
+			// the store behind a setter of the package (p.setSelector(x)): the call is the store, its argument the value
+			eachInstr(f, func(in ssa.Instruction) {
+				call, ok := in.(*ssa.Call)
+				if !ok {
+					return
+				}
+				h := helperCallee(f, &call.Call)
+				if h == nil {
+					return
+				}
+				for _, st := range fieldStores(h, "regprocessor.RegProcessor", "ipSelector") {
+					if prm, isP := stripConv(st.Val).(*ssa.Parameter); isP {
+						if idx := paramIndex(h, prm); idx < len(call.Call.Args) && h.Params[idx] == prm {
+							stores = append(stores, selStore{call, call.Call.Args[idx]})
+						}
+					}
+				}
+			})
+		}
 		if len(stores) == 0 {
 			r.Unk("C13.3", "ReloadSubnets: store to ipSelector", f.Pos(), fnName(f), "no store to RegProcessor.ipSelector found in ReloadSubnets")
 		}
-		for _, st := range stores {
+		for _, ss := range stores {
+			st := ss.at
 			// the stored value must come from result #0 of a call whose error result #1 is nil on this path
-			src := stripConv(st.Val)
+			src := stripConv(ss.val)
 			ex, ok := src.(*ssa.Extract)
 			if !ok {
 				r.Unk("C13.3", "ReloadSubnets: stored selector source", st.Pos(), fnName(f), "stored value is not the result of a loader call: "+pathOf(src))
